@@ -16,6 +16,10 @@ CLAIMED = {
          "provider's component constructors writes package-level state (store, map update, delete, copy, send, or hand-off to a writing callee) "
          "or uses map order/time/rand. Every such write is a VIOLATION naming function and call chain. Decides the structural clause "
          "(re-entrancy, determinism of inputs), not equality of trees under all schedules.", "3/C13"),
+ "C09": ("lock-flow dataflow over SSA: condition-variable protocol (wait decides under the cond's lock, signal under the lock, predicate update precedes signal), guarded-by, run-once/pop-returned structure, lock-order graph",
+         "Necessary structural conditions decided on every path of the pool's source: (W)/(S)/(S') of the textbook condition-variable argument for every Wait/Signal/Broadcast "
+         "(the argument that no wake-up is lost under ANY interleaving), queue mutators and worker table only under their locks, exactly one Run per dequeued task, a dequeued task is always handed to the worker, "
+         "deferred deregistration, acyclic lock order. Does not decide liveness beyond lost wake-ups or the timing of the polling loops.", "3/C09"),
 }
 
 NOT_YET = "check not built yet in this session (see DESIGN.md section 3 for the planned static rule)"
